@@ -118,4 +118,87 @@ impl Socket {
 //@ end
 }
 
+
+// ---------------------------------------------------------------------------
+// socket_session.rs: messages that arrive before accept() are parked and replayed when the socket exists
+//   NOT the repository's code (declared below): `struct SocketSession` is reduced to the two fields the functions use
+//   and the `RwLock`s around them are removed (`.read().unwrap().clone()` / `.write().unwrap()` become plain borrows,
+//   `&self` / `self: Arc<Self>` become `&mut self`): lock acquisition order and concurrent callers are NOT modelled.
+//   The tokio `mpsc::Sender<Message>` is `VxSender`, whose ghost view is the sequence of messages accepted by the
+//   channel so far (what the socket's receiver will deliver, in order); a clone of a Sender is a handle on the same
+//   channel, so the rewrite operates on the stored handle.  `println!` diagnostics are dropped.
+// ---------------------------------------------------------------------------
+/// ASSUMED (std): VecDeque::is_empty is `len() == 0`
+pub assume_specification<T, A: std::alloc::Allocator> [std::collections::VecDeque::<T, A>::is_empty] (d: &std::collections::VecDeque<T, A>) -> (r: bool)
+    ensures r == (d@.len() == 0);
+
+#[verifier::external_body]
+pub struct VxSender { _p: core::marker::PhantomData<Message> }
+impl VxSender {
+    /// the messages the channel has accepted so far, in order
+    pub uninterp spec fn view(&self) -> Seq<Message>;
+}
+#[verifier::external_body]
+pub fn vx_is_closed(c: &VxSender) -> (r: bool)
+{ unimplemented!() }
+#[verifier::external_body]
+pub fn vx_try_send(c: &mut VxSender, m: Message) -> (r: Result<(), ()>)
+    ensures
+        r is Ok ==> final(c)@ == old(c)@.push(m),
+        r is Err ==> final(c)@ == old(c)@,
+{ unimplemented!() }
+
+pub struct SocketSession {
+    pub upstream: Option<VxSender>,
+    pub stored_messages: VecDeque<Message>,
+}
+//@ item sim/elvis-core/src/protocol.rs :: enum DemuxError
+//@ rewrite `#\[derive\([^\]]*\)\]` => `#[derive(Debug, Clone, Copy, PartialEq, Eq)]` ## thiserror derive dropped (Display impl only)
+//@ rewrite `#\[error\("[^"]*"\)\]` => `` ## thiserror attribute dropped
+//@ rewrite `MissingProtocol\(TypeId\)` => `MissingProtocol` ## payload (std::any::TypeId, an external type) dropped; the variant is not used by these functions
+//@ end
+
+impl SocketSession {
+//@ item sim/elvis-core/src/protocols/socket_api/socket_session.rs :: impl SocketSession / fn receive id=SocketSession.receive
+//@ rewrite `pub fn receive\(&self, message: Message\)` => `pub fn receive(&mut self, message: Message)` ## RwLock interior mutability replaced by &mut self (see the header above)
+//@ rewrite `match self\.upstream\.read\(\)\.unwrap\(\)\.clone\(\) \{` => `match &mut self.upstream {` ## RwLock read + Sender::clone replaced by a borrow of the stored handle (a clone is a handle on the same channel)
+//@ rewrite `sock\.is_closed\(\)` => `vx_is_closed(sock)` ## Sender::is_closed routed to the (unspecified) wrapper
+//@ rewrite `sock\.try_send\(` => `vx_try_send(sock, ` ## Sender::try_send routed to the assumed-contract wrapper
+//@ rewrite `println!\([^;]*\);` => `` ## diagnostic output dropped
+//@ rewrite `self\.stored_messages\.write\(\)\.unwrap\(\)\.push_back\(message\);` => `self.stored_messages.push_back(message);` ## RwLock write guard replaced by the field
+//@ contract
+    ensures
+        // (C02) an accepted message goes to the end of what the socket will be handed: straight into the channel when the
+        //       socket exists, else to the end of the parked queue; a refused message changes nothing
+        r is Ok ==> (match old(self).upstream {
+            Some(c) => final(self).upstream is Some && final(self).upstream->0@ == c@.push(message) && final(self).stored_messages@ == old(self).stored_messages@,
+            None => final(self).upstream is None && final(self).stored_messages@ == old(self).stored_messages@.push(message),
+        }),   //# accepted_message_is_appended_in_arrival_order [C02]
+        r is Err ==> final(self).stored_messages@ == old(self).stored_messages@
+            && (old(self).upstream matches Some(c) ==> final(self).upstream is Some && final(self).upstream->0@ == c@),   //# refused_message_changes_nothing [C02]
+//@ end
+
+//@ item sim/elvis-core/src/protocols/socket_api/socket_session.rs :: impl SocketSession / fn receive_stored_messages id=SocketSession.receive_stored_messages
+//@ rewrite `pub fn receive_stored_messages\(self: Arc<Self>\)` => `pub fn receive_stored_messages(&mut self)` ## Arc<Self> + RwLock interior mutability replaced by &mut self
+//@ rewrite `match self\.upstream\.read\(\)\.unwrap\(\)\.clone\(\) \{` => `match &mut self.upstream {` ## see above
+//@ rewrite `let mut queue = self\.stored_messages\.write\(\)\.unwrap\(\);` => `let queue = &mut self.stored_messages;` ## RwLock write guard replaced by a borrow of the field
+//@ rewrite `sock\.try_send\(` => `vx_try_send(sock, ` ## Sender::try_send routed to the assumed-contract wrapper
+//@ contract
+    ensures
+        // (C02) data that arrived before accept() is handed to the socket in arrival order, each message once
+        r is Ok ==> old(self).upstream is Some && final(self).upstream is Some
+            && final(self).upstream->0@ == old(self).upstream->0@ + old(self).stored_messages@
+            && final(self).stored_messages@.len() == 0,   //# parked_messages_are_replayed_in_arrival_order [C02]
+        // (on failure - the channel refuses a message, which the code then drops, and Socket::accept unwraps the error - no
+        //  clause is stated: Verus does not resolve the `&mut self.upstream` reborrow at the early return inside the loop)
+//@ loop 1
+                invariant
+                    old(self).upstream is Some,
+                    sock@ + queue@ == old(self).upstream->0@ + old(self).stored_messages@,
+                decreases queue@.len(),
+//@ loop-end 1
+                    proof { assert(sock@ + queue@ =~= old(self).upstream->0@ + old(self).stored_messages@); }
+//@ end
+}
+
 } // verus!
